@@ -636,6 +636,16 @@ class Prop(Check):
         "Imp.C25_once",
         "Imp.C25_fqn",
         "Imp.C25_terminates",
+        "Imp.C25_missing_sound",
+        "Imp.C25_unexisting_general",
+        "Imp.C25_unexisting_sound_partial",
+        "Imp.C25_unexisting_sound_full_false",
+        "Imp.C25_loads",
+        "Imp.C25_loads_general",
+        "Imp.C25_loads_check",
+        "Imp.C25_connected_loaded",
+        "Imp.C25_loaded_resolvable",
+        "Imp.C25_load_iff",
     ]
     DRIVER = "Drivers/Imp.lean"
     QUICK_CASES = 340
